@@ -1,0 +1,68 @@
+//go:build verif && linux
+
+package router
+
+// Verification hooks for C13 (add-only, tag "verif"): drive the REAL stream readers of a running router with a
+// connection object supplied by the harness, so that the segmentation each reader sees is exactly the one chosen:
+//   - gnetServer.OnOpen / OnTraffic / OnClose on a fake gnet.Conn (and a read-only view of the connCtx),
+//   - tcpServer.handleConn on any net.Conn (e.g. one end of net.Pipe).
+// Nothing here is compiled into a normal build.
+
+import (
+	"net"
+	"time"
+
+	"github.com/panjf2000/gnet/v2"
+)
+
+type VerifGnet struct{ e *gnetServer }
+
+// VerifNewGnet builds a gnetServer bound to the running router without starting a gnet engine.
+func (v *VerifRouter) VerifNewGnet(maxConcurrent int32, idle time.Duration) *VerifGnet {
+	if maxConcurrent <= 0 {
+		maxConcurrent = defaultMaxConcurrentRequestPreTCPConn
+	}
+	if idle <= 0 {
+		idle = defaultTCPIdleTimeout
+	}
+	return &VerifGnet{e: &gnetServer{
+		r:             v.r,
+		logger:        v.r.subLoggerForServer("server_gnet", "verif"),
+		idleTimeout:   idle,
+		maxConcurrent: maxConcurrent,
+	}}
+}
+
+func (g *VerifGnet) OnOpen(c gnet.Conn) gnet.Action    { _, a := g.e.OnOpen(c); return a }
+func (g *VerifGnet) OnTraffic(c gnet.Conn) gnet.Action { return g.e.OnTraffic(c) }
+func (g *VerifGnet) OnClose(c gnet.Conn, err error)    { g.e.OnClose(c, err) }
+
+// VerifConnCtx reports the reassembly state kept in the connection's context:
+// len(buffer) (-1 when nil), readN, readingHdr, and the in-flight counter.
+func VerifConnCtx(c gnet.Conn) (bufLen int, readN int, readingHdr bool, inflight int32) {
+	cc := c.Context().(*connCtx)
+	bufLen = -1
+	if cc.buffer != nil {
+		bufLen = len(cc.buffer)
+	}
+	return bufLen, cc.readN, cc.readingHdr, cc.concurrentRequests.Load()
+}
+
+// VerifTcpHandleConn runs tcpServer.handleConn (plain TCP) on c and closes c when it returns,
+// exactly as the accept loop does.
+func (v *VerifRouter) VerifTcpHandleConn(c net.Conn, maxConcurrent int32, idle time.Duration) {
+	if maxConcurrent <= 0 {
+		maxConcurrent = defaultMaxConcurrentRequestPreTCPConn
+	}
+	if idle <= 0 {
+		idle = defaultTCPIdleTimeout
+	}
+	s := &tcpServer{
+		r:             v.r,
+		logger:        v.r.subLoggerForServer("server_tcp", "verif"),
+		idleTimeout:   idle,
+		maxConcurrent: maxConcurrent,
+	}
+	s.handleConn(c)
+	c.Close()
+}
